@@ -85,13 +85,13 @@ func buildWorld(ep evmkit.Epoch) *world {
 
 // newState opens the committed world and installs the program as addrC's code, finalised as if an
 // earlier transaction had deployed it (empty journal). It returns the state and its root.
-func (w *world) newState(program []byte) (*state.StateDB, common.Hash) {
+func (w *world) newState(program []byte, clearEmpty bool) (*state.StateDB, common.Hash) {
 	st, err := state.New(w.root, w.db)
 	if err != nil {
 		panic(err)
 	}
 	st.SetCode(addrC, program)
-	return st, st.IntermediateRoot(false)
+	return st, st.IntermediateRoot(clearEmpty)
 }
 
 // ---- observing world state -----------------------------------------------------------------------------------
@@ -123,25 +123,31 @@ func logsDigest(st *state.StateDB) string {
 	return fmt.Sprintf("%d:%x", len(logs), h.Sum(nil)[:6])
 }
 
+// The state root is taken the way the chain takes it at the end of a transaction: with EIP-158 state
+// clearing (touched empty accounts are dropped) where that rule is active, without it elsewhere. In every
+// built-in schedule EIP-158 and Byzantium start at the same height (HF7), so Epoch.ByzRules tells.
+// Without this an empty account object created by touching a precompile address from a static frame
+// would count as a change although it never reaches a state root.
+
 // observe looks at a live state without disturbing it (works on a deep copy).
-func observe(st *state.StateDB) obs {
+func observe(st *state.StateDB, clearEmpty bool) obs {
 	o := obs{logs: logsDigest(st), refund: st.GetRefund()}
-	o.root = st.Copy().IntermediateRoot(false)
+	o.root = st.Copy().IntermediateRoot(clearEmpty)
 	return o
 }
 
 // observeFinal looks at a state that will not be used again.
-func observeFinal(st *state.StateDB) obs {
+func observeFinal(st *state.StateDB, clearEmpty bool) obs {
 	o := obs{logs: logsDigest(st), refund: st.GetRefund()}
-	o.root = st.IntermediateRoot(false)
+	o.root = st.IntermediateRoot(clearEmpty)
 	return o
 }
 
 // withNonceBump is what the state root would be if only addr's nonce were one higher.
-func withNonceBump(st *state.StateDB, addr common.Address) common.Hash {
+func withNonceBump(st *state.StateDB, addr common.Address, clearEmpty bool) common.Hash {
 	cp := st.Copy()
 	cp.SetNonce(addr, cp.GetNonce(addr)+1)
-	return cp.IntermediateRoot(false)
+	return cp.IntermediateRoot(clearEmpty)
 }
 
 // ---- the step tracer with the per-step oracles ---------------------------------------------------------------
@@ -163,6 +169,7 @@ type frame struct {
 }
 
 type tracer struct {
+	clearEmpty bool
 	st        *state.StateDB
 	frames    []frame
 	first     *finding
@@ -240,7 +247,14 @@ func (t *tracer) CaptureState(env *vm.EVM, pc uint64, op vm.OpCode, gas, cost ui
 				t.nestedSeen++
 				if stack.Back(0).Sign() == 0 { // the callee frame failed (or was refused)
 					t.callFailed++
-					now := observe(t.st)
+					now := observe(t.st, t.clearEmpty)
+					// this step's own gas function has already run: SSTORE / SELFDESTRUCT book their refund there
+					switch {
+					case op == vm.SSTORE && now.refund == f.pending.refund+15000:
+						now.refund -= 15000
+					case op == vm.SELFDESTRUCT && now.refund == f.pending.refund+24000:
+						now.refund -= 24000
+					}
 					same := now == *f.pending
 					if !same && f.pendingBump != nil {
 						bumped := *f.pending
@@ -279,10 +293,10 @@ func (t *tracer) CaptureState(env *vm.EVM, pc uint64, op vm.OpCode, gas, cost ui
 	f.pending, f.pendingBump = nil, nil
 	if isCallOp(op) && t.nestedObs > 0 {
 		t.nestedObs--
-		o := observe(t.st)
+		o := observe(t.st, t.clearEmpty)
 		f.pending = &o
 		if op == vm.CREATE {
-			b := withNonceBump(t.st, contract.Address())
+			b := withNonceBump(t.st, contract.Address(), t.clearEmpty)
 			f.pendingBump = &b
 		}
 	}
@@ -333,9 +347,10 @@ type outcome struct {
 const nestedObsPerCase = 48
 
 func execute(w *world, c Case) (out outcome) {
-	st, preRoot := w.newState(c.Code)
+	clearEmpty := c.Ep.ByzRules
+	st, preRoot := w.newState(c.Code, clearEmpty)
 	pre := obs{root: preRoot, logs: "0", refund: 0}
-	tr := &tracer{st: st, nestedObs: nestedObsPerCase}
+	tr := &tracer{st: st, nestedObs: nestedObsPerCase, clearEmpty: clearEmpty}
 	if c.NoNested {
 		tr.nestedObs = 0
 	}
@@ -343,7 +358,7 @@ func execute(w *world, c Case) (out outcome) {
 	evm := evmkit.NewEVM(c.Ep, st, tr)
 	var bumped common.Hash
 	if c.Mode == ModeCreate {
-		bumped = withNonceBump(st, addrCaller)
+		bumped = withNonceBump(st, addrCaller, clearEmpty)
 	}
 	panicked := func() (p interface{}) {
 		defer func() { p = recover() }()
@@ -383,7 +398,7 @@ func execute(w *world, c Case) (out outcome) {
 	}
 	switch {
 	case c.Mode == ModeStatic:
-		now := observeFinal(st)
+		now := observeFinal(st, clearEmpty)
 		if now != pre {
 			out.stateMoved = true
 			if c.Ep.ByzRules {
@@ -391,7 +406,7 @@ func execute(w *world, c Case) (out outcome) {
 			}
 		}
 	case out.err != nil:
-		now := observeFinal(st)
+		now := observeFinal(st, clearEmpty)
 		ok := now == pre
 		if !ok && c.Mode == ModeCreate {
 			p2 := pre
